@@ -363,6 +363,11 @@ def merge_render_with_git(b, l, r, strategy=None):
     elif strategy is not None:
         warning("Using git merge-file but ignoring strategy %s", strategy)
     merged, status = external_merge_render(cmd.split(), b, l, r)
+    if status < 0 or status > 127:
+        # git merge-file exits with the number of conflicts (at most 127), any
+        # other status means it failed, e.g. because it considers the text
+        # binary. Fall back to the builtin renderer.
+        return builtin_merge_render(as_text(b), as_text(l), as_text(r), strategy)
 
     # Remove trailing newline if ">>>>>>> remote" is the last line
     lines = merged.splitlines(True)
